@@ -46,6 +46,11 @@ FIELD_TYPES = {
     ('SupvisorsOptions', 'rules_files'): TOpt(TList(STR)),
     ('ProcessCommand', 'minimum_ticks'): INT,
     ('SupvisorsInstanceStatus', 'stats_collector'): TOpt(TObj('StatisticsCollectorProcess')),
+    # C14/C04: the class-level default of local_view is None until the handshake identifies the instance
+    ('SupvisorsInstanceId', 'local_view'): TOpt(TObj('LocalNetwork')),
+    # C14/C04 ghost quantities standing for the sums the engine does not unfold (see contracts/c14.py)
+    ('SupvisorsInstanceStatus', 'ghost_load'): INT,
+    ('Context', 'ghost_node_load'): TDict(STR, INT),
 }
 
 # keys of payload records (Dict[str, Any] with literal keys) -> type
